@@ -65,7 +65,8 @@ def strategy(draw, tier="quick"):
         m = draw(gen.automaton(regime="QQ", acyclic=False, max_states=4, alphabet=alphabet))
         m["general"] = True
     else:
-        m = draw(gen.automaton(regime="QQ", acyclic=True, max_states=4 if tier == "quick" else 5, alphabet=alphabet))
+        big = draw(st.integers(0, 4)) == 0
+        m = draw(gen.automaton(regime="QQ", acyclic=True, max_states=(6 if big else 4) if tier == "quick" else 6, max_arcs=12 if big else 8, alphabet=alphabet))
     return {"m": m}
 
 
